@@ -286,6 +286,22 @@ def run(ctx):
         ctx.ok('U2', 'no store to the IKE_SA and no dispatch is reachable in process_message for a message that did not '
                'pass the checksum comparison while keys exist (%d blocked edges, %d reachable nodes)' % (
                    len(blocked), len(R)), ctx.site(pm, pm.node))
+    # ... and what the window code re-sends for it is the IKE_SA_INIT response only while the IKE_SA_INIT request (Message ID 0) is
+    # the last request that was answered: the exemption must insist on Message ID 0, not merely on "the previous ID" - otherwise
+    # a cleartext 'IKE_SA_INIT request' carrying the ID of a later exchange is answered with that exchange's stored response
+    from ..sval import const as _const, strip_ids as _sid
+    from .. import tq as _tq
+    PMV = ctx.sval(pm)
+    for c in PMV.calls_to(qual='ikesa.IkeSa._process_request'):
+        unprot = [a for a in c.pc if a[1] and a[0][0] == 'cmp' and a[0][1] == 'is' and ('const', 'NoneType', None) in a[0][2:]
+                  and any(x[0] == 'attr' and x[2] == 'crypto' and x[1][0] != 'param' for x in a[0][2:])]
+        if not unprot:
+            continue
+        m_t = list(c.args.values())[0] if c.args else None
+        goal = PMV.mk_cmp('==', ('attr', m_t, 'message_id'), _const(0)) if m_t is not None else None
+        ctx.check(goal is not None and _tq.entails(c.pc, goal) is True, 'U2', 'the cleartext exemption is limited to Message ID 0 (the '
+                  'IKE_SA_INIT exchange): the stored response it obtains is the IKE_SA_INIT response', key=('U2', 'exemption-id-0'),
+                  site=ctx.site(pm, c.node), detail={'condition': [('' if v else 'not ') + _tq.text(a, 120) for a, v in c.pc]})
     # the previous-ID branch of the window code has no effect (C08/M1, re-derived here)
     preq = ctx.func('ikesa.IkeSa._process_request')
     gq = esc.add_exception_edges(preq)
